@@ -19,11 +19,9 @@ pub mod option_chrono_naive_date_as_int {
                 let day = value % 100;
                 let month = (value / 100) % 100;
                 let year = value / 10000;
-                Ok(chrono::NaiveDate::from_ymd_opt(
-                    year as i32,
-                    month as u32,
-                    day as u32,
-                ))
+                Ok(i32::try_from(year)
+                    .ok()
+                    .and_then(|year| chrono::NaiveDate::from_ymd_opt(year, month as u32, day as u32)))
             }
         }
     }
